@@ -225,3 +225,36 @@ func TestRefSelfCheck(t *testing.T) {
 		}
 	})
 }
+
+// ---------------------------------------------------------------- RocksDB
+
+const ruleRocks = "the balloon-level differential on the durable back-end: a real Balloon on a real RocksDBStore in an executor child; restart point = close balloon + close store + open store + NewBalloon on the same directory (1 case in 8: 1001-2001 events in a few bulks with a reopen before every call, above the 1000-entry page of the cache warm-up); every returned snapshot compared with the reference trees, and the reopened balloon must report the next version. Non-trivial: n>=3 and >= 1 reopen followed by an insertion; distinct = FNV-64 of the history."
+
+func TestRocksBalloonVsRef(t *testing.T) {
+	rec := pbt.NewRec("C04", "TestRocksBalloonVsRef", ruleRocks,
+		"hyper inner nodes hash right child before left (the order the pinned tree publishes; no document fixes it)",
+		"RocksDB 7.8 behind the compat shim is the durable store")
+	maxN := pbt.Scale(120, 500)
+	pbt.Run(t, rec, func(rt *rapid.T) rig.LogHistory {
+		if rapid.IntRange(0, 7).Draw(rt, "page-boundary") == 0 {
+			h := rig.DrawBigLog(rt, rapid.SampledFrom([]int{1001, 1100, 2001}).Draw(rt, "big-n"))
+			for i := 1; i < len(h.Calls); i++ {
+				h.Restarts = append(h.Restarts, i)
+			}
+			return h
+		}
+		h := rig.DrawLog(rt, maxN, true, true)
+		if len(h.Calls) > 1 && len(h.Restarts) == 0 {
+			h.Restarts = []int{rapid.IntRange(1, len(h.Calls)-1).Draw(rt, "reopen")}
+		}
+		return h
+	}, func(h rig.LogHistory, rec *pbt.Rec) error {
+		cls := h.Classes()
+		rec.Case(h, len(h.Digests) >= 3 && len(h.Restarts) > 0, cls...)
+		rec.Sample(len(h.Digests), h)
+		st, _, err := rig.RunRocksBalloon(h, true, false)
+		rec.Count("snapshots_compared", st.Snapshots)
+		rec.Count("reopens", st.Reopens)
+		return err
+	})
+}
